@@ -431,11 +431,10 @@ class Site(Hdf5Exportable):
             The name of the operator to be removed.
 
         """
-        hc_name = self.hc_ops.get(name, None)
-        if hc_name is not None:
-            del self.hc_ops[name]
-            if hc_name != name:
-                del self.hc_ops[hc_name]
+        self.hc_ops.pop(name, None)
+        # drop every entry naming the removed operator as conjugate (`hc_ops` needs not be symmetric after `add_op(..., hc=None)`)
+        for other in [k for k, v in self.hc_ops.items() if v == name]:
+            del self.hc_ops[other]
         self.opnames.remove(name)
         delattr(self, name)
         self.need_JW_string.discard(name)
